@@ -2,6 +2,7 @@ import json
 import logging
 import os
 import time
+import uuid
 from pathlib import PurePath
 from typing import Any, Optional, List, Union, Dict, Tuple
 from collections import OrderedDict
@@ -201,15 +202,20 @@ class LocalFileStore(Store):
             STU.from_type(type(blob)), codec
         )
         p = os.path.join(self._root, "blobs", key)
+        # The blob and then its metadata are written under a temporary name and renamed:
+        # another process (or a process started after this one got killed) never sees a
+        # partially written file, and the metadata only exists once the blob is complete.
+        tmp_suffix = f".tmp-{os.getpid()}-{uuid.uuid4().hex}"
         if isinstance(protocol, CodecProtocol):
-            protocol.serialize_into(blob, GenericLocation(p))
+            protocol.serialize_into(blob, GenericLocation(p + tmp_suffix))
         elif isinstance(protocol, FileCodecProtocol):
             # This is the local file system, we can directly copy the file to its final destination
-            protocol.serialize_into(blob, PurePath(p))
+            protocol.serialize_into(blob, PurePath(p + tmp_suffix))
         else:
             raise DDSException(f"Wrong protocol type: {type(protocol)} {protocol}")
+        os.replace(p + tmp_suffix, p)
         meta_p = os.path.join(self._root, "blobs", key + ".meta")
-        with open(meta_p, "wb") as f:
+        with open(meta_p + tmp_suffix, "wb") as f:
             f.write(
                 json.dumps(
                     {
@@ -218,11 +224,13 @@ class LocalFileStore(Store):
                     }
                 ).encode("utf-8")
             )
+        os.replace(meta_p + tmp_suffix, meta_p)
         _logger.debug(f"Committed new blob in {key}")
 
     def has_blob(self, key: PyHash) -> bool:
         p = os.path.join(self._root, "blobs", key)
-        return os.path.exists(p)
+        # The metadata is written last: without it the blob is not committed.
+        return os.path.exists(p) and os.path.exists(p + ".meta")
 
     def _location(self, path: DDSPath) -> "Tuple[str, str]":
         """
